@@ -34,6 +34,7 @@ class Device:
         self.restarts = 0
         self.level: int | None = None
         self.address_writes: list[IndividualAddress] = []
+        self.fast = False  # answers broadcast reads in the same socket read as the client's L_Data.con (handled before the sender resumes)
 
     def __repr__(self) -> str:
         return f"{self.name}({self.address}, prog={self.prog_mode}, {self.behaviour})"
@@ -56,7 +57,14 @@ class BusWorld(World):
             async def send_cemi(self, cemi: Any) -> None:
                 tg = cemi.data.telegram()
                 world.sent.append((world.loop.time(), tg))
-                world.loop.call_soon(world.xknx.cemi_handler._l_data_confirmation_event.set)  # noqa: SLF001
+
+                def con_and_fast_answers() -> None:
+                    # one TCP read carrying the L_Data.con and the first L_Data.ind frames: all handled before the task waiting in
+                    # CEMIHandler.send_telegram runs again
+                    world.xknx.cemi_handler._l_data_confirmation_event.set()  # noqa: SLF001
+                    world.on_bus_fast(tg)
+
+                world.loop.call_soon(con_and_fast_answers)
                 world.loop.call_later(0.01, world.on_bus, tg)
 
         self.xknx.knxip_interface = Iface()  # type: ignore[assignment]
@@ -77,6 +85,26 @@ class BusWorld(World):
         self.loop.call_later(delay, self.deliver, tg)
 
     # -- client -> bus --------------------------------------------------------------------------------------------
+    def on_bus_fast(self, tg: Telegram) -> None:
+        p = tg.payload
+        if not isinstance(tg.tpci, T.TDataBroadcast):
+            return
+        for d in self.devices:
+            # the confirmation says the frame has been on the bus: address writes have reached the devices by then
+            if isinstance(p, apci.IndividualAddressWrite) and d.prog_mode:
+                d.address = IndividualAddress(p.address.raw)
+                d.address_writes.append(d.address)
+            elif isinstance(p, apci.IndividualAddressSerialWrite) and p.serial == d.serial:
+                d.address = IndividualAddress(p.address.raw)
+                d.address_writes.append(d.address)
+            if not d.fast:
+                continue
+            if isinstance(p, apci.IndividualAddressRead) and d.prog_mode:
+                self.deliver(Telegram(destination_address=GroupAddress("0/0/0"), source_address=IndividualAddress(d.address.raw), tpci=T.TDataBroadcast(), payload=apci.IndividualAddressResponse()))
+            elif isinstance(p, apci.IndividualAddressSerialRead) and p.serial == d.serial:
+                self.deliver(Telegram(destination_address=GroupAddress("0/0/0"), source_address=IndividualAddress(d.address.raw), tpci=T.TDataBroadcast(),
+                                      payload=apci.IndividualAddressSerialResponse(serial=d.serial, address=IndividualAddress(d.address.raw))))
+
     def on_bus(self, tg: Telegram) -> None:
         p = tg.payload
         if isinstance(tg.tpci, T.TDataBroadcast):
@@ -84,16 +112,12 @@ class BusWorld(World):
                 if type(p).__name__ == name:
                     self.loop.call_later(0.005, self.deliver, fac())
             for d in self.devices:
+                if d.fast and isinstance(p, apci.IndividualAddressRead | apci.IndividualAddressSerialRead):
+                    continue  # answered already, see on_bus_fast
                 if isinstance(p, apci.IndividualAddressRead) and d.prog_mode:
                     self.from_device(d, T.TDataBroadcast(), apci.IndividualAddressResponse(), broadcast=True, delay=0.01 + 0.001 * self.devices.index(d))
-                elif isinstance(p, apci.IndividualAddressWrite) and d.prog_mode:
-                    d.address = IndividualAddress(p.address.raw)
-                    d.address_writes.append(d.address)
                 elif isinstance(p, apci.IndividualAddressSerialRead) and p.serial == d.serial:
                     self.from_device(d, T.TDataBroadcast(), apci.IndividualAddressSerialResponse(serial=d.serial, address=IndividualAddress(d.address.raw)), broadcast=True, delay=0.02)
-                elif isinstance(p, apci.IndividualAddressSerialWrite) and p.serial == d.serial:
-                    d.address = IndividualAddress(p.address.raw)
-                    d.address_writes.append(d.address)
             return
         for d in self.devices:
             if d.address != tg.destination_address or d.behaviour == "silent":
